@@ -20,6 +20,7 @@ import (
 	"net/http"
 	"net/http/httptest"
 	"regexp"
+	"runtime"
 	"sort"
 	"strconv"
 	"strings"
@@ -70,9 +71,9 @@ func main() {
 			"verifiers status, header, method, url, querystring, failure, pingback, each with a distinct expectation) installed in the cmd/proxy wiring " +
 			"(servemux filter + api.Forwarder, martianhttp.Modifier, verify.Handler, verify.ResetHandler; a slice of the cases through a real martian.Proxy over in-memory connections, " +
 			"and a slice with the handlers attached directly to the top-level modifier); histories of 1..60 steps over {exchange meeting/failing chosen expectations, API request " +
-			"(GET /configure, GET /verify, POST /verify/reset through the proxy), direct GET /verify, direct POST /verify/reset} (quick 1500, thorough 30000), every request with a unique URL token; " +
+			"(GET /configure, GET /verify, POST /verify/reset through the proxy), direct GET /verify, direct POST /verify/reset} (quick 1500, thorough 120000), every request with a unique URL token; " +
 			"after each query the handler's JSON is compared with a multiset model (one error per unmet evaluation since the last reset, none for API requests, pingback: one error iff no matching request since the last reset). " +
-			"Concurrent: the same operations from 2..8 goroutines against top-level group / filter / bare verifier in both wirings (quick 40 runs + race batches, thorough 600), per-verifier histories " +
+			"Concurrent: the same operations from 2..8 goroutines against top-level group / filter / bare verifier in both wirings (quick 40 runs + 120 under the race detector, thorough 1200 + 1400), per-verifier histories " +
 			"{add(request), read->multiset, reset} checked for linearizability with porcupine; the workload also runs under the race detector. " +
 			"A class = (top-level kind | depth | verifier kinds bucket | branch placement | history pattern) observed at a compared query, plus porcupine partitions checked by verifier kind and overlap bucket.",
 		Assumptions: []string{
@@ -88,9 +89,9 @@ func main() {
 			for i := 0; i < nSeq; i++ {
 				bs = append(bs, vh.Batch{Name: fmt.Sprintf("seq-%d", i), TimeoutS: 1200})
 			}
-			nc, nr := 2, 3
+			nc, nr := 2, 4
 			if tier == "thorough" {
-				nc, nr = 6, 10
+				nc, nr = 8, 14
 			}
 			for i := 0; i < nc; i++ {
 				bs = append(bs, vh.Batch{Name: fmt.Sprintf("conc-%d", i), TimeoutS: 1500})
@@ -714,9 +715,9 @@ func (m *seqModel) compareQuery(msgs []string) []finding {
 		}
 		if k.Req < 0 {
 			// pingback should be reported as never occurred
-			sig := "C13:lost:" + vname(k)
+			sig := "C13:lost:" + vname(k) + ":never-seen"
 			if m.pingEver[k.VIdx] {
-				sig = fmt.Sprintf("C13:reset:%s:%s", k.Side, place(k))
+				sig = "C13:lost:" + vname(k) + ":seen-before-reset"
 			}
 			out = append(out, finding{sig, "no matching request since the last reset, yet the pingback verifier reports nothing", map[string]interface{}{"verifier": m.a.vs[k.VIdx], "placement": place(k)}})
 			continue
@@ -937,7 +938,7 @@ func judgeSeq(r *vh.Run, c seqCase) {
 }
 
 func runSeq(r *vh.Run, child int) {
-	total := r.Pick(1500, 30000)
+	total := r.Pick(1500, 120000)
 	for i := child; i < total; i += nSeq {
 		c := genSeq(r, "c13-seq", i)
 		r.Case(map[string]interface{}{"kind": "gen-seq", "stream": "c13-seq", "idx": i, "steps": len(c.Steps), "config_json": json.RawMessage(c.Tree.JSON())})
@@ -1143,7 +1144,7 @@ func runConc(r *vh.Run, c concCase, race bool) {
 	stamp := func() int64 { return atomic.AddInt64(&seq, 1) }
 	recs := make([][]copRec, G)
 	var wg sync.WaitGroup
-	start := make(chan struct{})
+	var started, ready int32 // spin barrier: all goroutines begin their first operation together
 	var harnessErr atomic.Value
 	for g := 0; g < G; g++ {
 		wg.Add(1)
@@ -1158,7 +1159,10 @@ func runConc(r *vh.Run, c concCase, race bool) {
 				}
 				defer cl.c.Close()
 			}
-			<-start
+			atomic.AddInt32(&ready, 1)
+			for atomic.LoadInt32(&started) == 0 {
+				runtime.Gosched()
+			}
 			for _, op := range plans[g] {
 				rec := copRec{op: op, g: g}
 				rec.t0 = stamp()
@@ -1191,7 +1195,10 @@ func runConc(r *vh.Run, c concCase, race bool) {
 			}
 		}(g)
 	}
-	close(start)
+	for atomic.LoadInt32(&ready) < int32(G) && harnessErr.Load() == nil {
+		runtime.Gosched()
+	}
+	atomic.StoreInt32(&started, 1)
 	wg.Wait()
 	r.Eval(1)
 	if e := harnessErr.Load(); e != nil {
@@ -1360,9 +1367,9 @@ func run(r *vh.Run, batch string) {
 		runSeq(r, child)
 	case strings.HasPrefix(batch, "conc-"), strings.HasPrefix(batch, "race-"):
 		race := strings.HasPrefix(batch, "race-")
-		n := r.Pick(20, 100)
+		n := r.Pick(20, 150)
 		if race {
-			n = r.Pick(24, 60)
+			n = r.Pick(30, 100)
 		}
 		for i := 0; i < n; i++ {
 			c := concCase{Kind: "conc", Stream: "c13-" + batch, Idx: i}
